@@ -818,6 +818,9 @@ func aliasOf(p *core.Path, at *core.Event, e ast.Expr) *types.Var {
 	for fr := at.Frame; v != nil && fr != nil && fr.Parent != nil; fr = fr.Parent {
 		ft := fr.FuncType()
 		if ft == nil || fr.Call == nil {
+			if fr.Lit != nil && fr.Parent != nil {
+				continue // a literal frame entered without a call expression (section callback): look further up
+			}
 			return v
 		}
 		i := 0
@@ -832,7 +835,7 @@ func aliasOf(p *core.Path, at *core.Event, e ast.Expr) *types.Var {
 			}
 		}
 		if !found {
-			return v
+			continue // not a parameter of this frame: it may be one of an enclosing frame (a captured parameter)
 		}
 	}
 	return v
